@@ -6,7 +6,7 @@
 
 /* the C target names NOEXEC operands by position (orc/orcprogram-c.c:varnames, same table in tools/orcc.c) */
 static const char *cg_varnames[48] = {
-  "d1", "d2", "d3", "d4", "s1", "s2", "s3", "s4", "s5", "s6", "s7", "s8", "a1", "a2", "a3", "d4",
+  "d1", "d2", "d3", "d4", "s1", "s2", "s3", "s4", "s5", "s6", "s7", "s8", "a1", "a2", "a3", "a4",
   "c1", "c2", "c3", "c4", "c5", "c6", "c7", "c8", "p1", "p2", "p3", "p4", "p5", "p6", "p7", "p8",
   "t1", "t2", "t3", "t4", "t5", "t6", "t7", "t8", "t9", "t10", "t11", "t12", "t13", "t14", "t15", "t16"
 };
